@@ -76,6 +76,8 @@ struct World {
   bool have_poll = false;
   // run bookkeeping
   bool in_run = false, draining = false, failed = false;
+  int clocksig_in = 0;            // a signal handler calling events_interrupt() runs during the n-th next clock reading made inside events_run
+  bool async_intr_in_call = false;
   int clock_fail_in = 0;          // the n-th next reading of the clock fails (once)
   bool clock_failed_in_call = false;
   bool poll_reported_runnable = false;  // the previous poll of this call reported a pending registration ready
@@ -126,6 +128,13 @@ extern "C" int monoclock_get(struct timeval *tv) {
     W->cls.insert("clock-failure");
     errno = EINVAL;
     return -1;
+  }
+  if (W->clocksig_in > 0 && W->in_run && --W->clocksig_in == 0) {
+    // events_interrupt() is made for signal handlers: the signal may arrive anywhere, e.g. while the loop reads the clock between two of its own
+    // checks.  Whether one more callback runs is then a matter of timing; but nothing registered may get lost, and the result is still 0.
+    shim_interrupt();
+    W->async_intr_in_call = true;
+    W->cls.insert("interrupt-from-signal-during-clock-read");
   }
   if (W->jit_max > 0) {
     W->jit_state = W->jit_state * 6364136223846793005ULL + 1442695040888963407ULL;
@@ -637,6 +646,7 @@ static void run_once(int spin_n, bool long_spin = false) {
   }
   int rc;
   w.clock_failed_in_call = false;
+  w.async_intr_in_call = false;
   if (spin_n > 0) {
     // events_spin runs until done: make sure it cannot block forever -- done is set after
     // spin_n callbacks, and the fair-kernel fallback guarantees progress while registrations exist
@@ -657,7 +667,7 @@ static void run_once(int spin_n, bool long_spin = false) {
     w.cls.insert("clock-failure-inside-events_run");
     return;
   }
-  if (spin_n <= 0) {
+  if (spin_n <= 0 && !w.async_intr_in_call) {
     if (w.runnable_at_entry && w.cb_in_run == 0 && !w.stop_seen)
       w.fail(5, "runnable-but-nothing-ran", "events_run started with something runnable and returned without running a callback");
     if (w.must_run && w.cb_in_run == 0 && !w.stop_seen)
@@ -711,6 +721,8 @@ static Outcome run_case(const Case &c, int oracle) {
     } else if (op.k == "spin") {
       run_once((int)std::max<int64_t>(1, std::min<int64_t>(A(0), 5)));
       nruns++;
+    } else if (op.k == "clocksig") {
+      w.clocksig_in = (int)std::max<int64_t>(1, std::min<int64_t>(A(0), 4));
     } else if (op.k == "clockfail") {
       w.clock_fail_in = (int)std::max<int64_t>(1, std::min<int64_t>(A(0), 3));
     } else if (op.k == "longspin") {
@@ -848,7 +860,7 @@ static rc::Gen<Case> gen_prog(int tier) {
     if (*range<int>(0, 2) == 0) c.push_back(Op("jitter", {*rc::gen::elementOf(std::vector<int64_t>{1, 50, 999, 3000}), *rc::gen::arbitrary<int>()}));
     int steps = *range<int>(5, tier ? 120 : 60);
     for (int s = 0; s < steps; s++) {
-      int k = *rc::gen::weightedElement<int>({{24, 0}, {6, 1}, {3, 2}, {15, 3}, {6, 4}, {21, 5}, {3, 6}, {6, 7}, {3, 8}, {3, 9}, {1, 10}});
+      int k = *rc::gen::weightedElement<int>({{24, 0}, {6, 1}, {3, 2}, {15, 3}, {6, 4}, {21, 5}, {3, 6}, {6, 7}, {3, 8}, {3, 9}, {2, 10}});
       switch (k) {
       case 0:
         c.push_back(Op("reg", {*range<int>(0, ntpl - 1)}));
@@ -883,7 +895,8 @@ static rc::Gen<Case> gen_prog(int tier) {
         c.push_back(Op("sigint", {*range<int>(1, 2), *range<int>(0, 1)}));
         break;
       case 10:
-        c.push_back(Op("clockfail", {*range<int>(1, 3)}));
+        if (*range<int>(0, 1)) c.push_back(Op("clocksig", {*range<int>(1, 4)}));
+        else c.push_back(Op("clockfail", {*range<int>(1, 3)}));
         break;
       }
     }
